@@ -21,6 +21,7 @@ def run(rep):
     rep.guard(s5, rep, w)
     rep.guard(s6, rep, w)
     rep.guard(s7, rep, w)
+    rep.guard(s8, rep, w, 'C06')
     import c08
     rep.guard(c08.x9, rep, w)    # a global name is looked up in the module of the running frame: the cached module follows every frame change
     import c04_narrow
@@ -510,3 +511,31 @@ def s7(rep, w):
                         'happens to match it is compiled as a read of slot zero instead of the variable the source names' % sorted(roots)[:3], f.loc(s_.get('sp')))
     if n < 1:
         raise Broken('C06', 'anchor', 'Compiler::new: the slot-zero Local is not built here')
+
+
+def s8(rep, w, prop='C06'):
+    """abandoning a run gives up every fiber that was waiting for the failing one, not only the active fiber: the function that
+    tears the active fiber down after an uncaught error closes upvalues inside a loop that steps along the `caller` link.
+    (Until fix a2081e8 only the active fiber was closed; a closure made by the *calling* fiber kept an open upvalue into a stack
+    that is freed when that fiber becomes unreachable.)"""
+    r = rep.rule('S8', 'an uncaught error closes the captured variables of every fiber on the chain of callers, not only of the active fiber', floor=2)
+    f = w.require_fn(VM + 'reset_stack', prop)
+    closes = [bi for bi, t in f.calls() if (callee_name(t) or '').endswith('ObjFiber::close_upvalues')]
+    if not closes:
+        r.bad('reset_stack closes upvalues in a loop', 'reset_stack closes no upvalues at all: every closure that captured a variable of the abandoned run keeps '
+              'pointing into a value stack that is cleared and later freed', f.loc())
+        r.bad('the loop steps along ObjFiber.caller', 'reset_stack does not visit the fibers that called the failing one', f.loc())
+        return
+    reach = {b: f.reachable_blocks(b) for b in closes}
+    for cb in closes:
+        cyc = {b for b in reach[cb] if cb in f.reachable_blocks(b)} if any(cb in f.reachable_blocks(x) for x in f.succs()[cb]) else set()
+        r.check(bool(cyc), 'reset_stack closes upvalues in a loop', 'reset_stack closes the open upvalues of one fiber only: the fibers that called it '
+                '(and can never be resumed) keep theirs open, pointing into value stacks that are freed with the fiber objects', f.loc(f.blocks[cb]['t'].get('sp')))
+        follows = False
+        for b in cyc:
+            for s_ in f.blocks[b]['s']:
+                rr = s_.get('r', {})
+                pl = rr.get('p') if rr.get('rv') == 'ref' else op_place(rr.get('o', {}) or {})
+                if pl and any(isinstance(e, dict) and e.get('n') == 'caller' for e in pl.get('p', [])):
+                    follows = True
+        r.check(follows, 'the loop steps along ObjFiber.caller', 'the loop in reset_stack does not follow the caller link of the fiber it has just closed', f.loc())
